@@ -1,4 +1,5 @@
 """C11: shared-cache transactions (CacheMgr.tla design + forced schedules + CacheMonitor.tla)."""
+import glob
 import json
 import os
 import random
@@ -153,9 +154,14 @@ def simulate(seed, maxsize, fam, num, name):
 def c11(res, tier, seed, replay):
     vlib.build_harness()
     kn = known_names(res.pid)
+    stage_sizes = (-1, 3, 0)
     if replay:
         meta = json.load(open(os.path.join(replay, "violation.json")))["meta"]
-        jobs = [("replay", meta["maxsize"], [l.strip() for l in open(os.path.join(replay, meta["behaviours"])) if l.strip()])]
+        if meta.get("stages"):
+            jobs, stage_sizes = [], (meta["maxsize"],)
+        else:
+            stage_sizes = ()
+            jobs = [("replay", meta["maxsize"], [l.strip() for l in open(os.path.join(replay, meta["behaviours"])) if l.strip()])]
     else:
         design_check(res, "CacheMgrMC", "CacheMgr.s0.cfg")
         if tier == "thorough":
@@ -164,6 +170,13 @@ def c11(res, tier, seed, replay):
             design_check(res, "CacheMgrMC", "CacheMgr.twicefix.cfg", timeout=2400)
         expect_design_violation(res, "CacheMgrMC", "CacheMgr.twice.cfg", "NoConcurrentRW",
                                 "pinned protocol: a transaction writing the same name twice under a small size limit skips locking by NAME on the second access")
+        # one transaction on several goroutines (CacheMgr.tla has one goroutine per transaction): the lock order
+        design_check(res, "CacheLocks", "CacheLocks.fixed-reader.cfg")
+        design_check(res, "CacheLocks", "CacheLocks.fixed-writer.cfg")
+        expect_design_violation(res, "CacheLocks", "CacheLocks.pinned-reader.cfg", "NoDeadlock",
+                                "pinned lock order (manager, then transaction): stage / stage / reader-with-deferred-prune deadlock")
+        expect_design_violation(res, "CacheLocks", "CacheLocks.pinned-writer.cfg", "NoDeadlock",
+                                "pinned lock order (manager, then transaction): stage / stage / committing-previous-writer deadlock")
         rng = random.Random(seed)
         nfam, num = (60, 250) if tier == "quick" else (400, 3000)
         jobs = []
@@ -175,6 +188,28 @@ def c11(res, tier, seed, replay):
             wit, total = witnesses(seed, spec_ms, f"wit{spec_ms}", 300 if tier == "quick" else 3000)
             res.coverage.setdefault("scenario_witnesses", {})[f"maxsize {ms}"] = {"reachable": total, "replayed": len(wit)}
             jobs.append((f"wit{spec_ms}", ms, wit))
+    # transactions whose accesses run on several goroutines (the write pipeline: one stage per index on one cache
+    # transaction): the two schedules of CacheLocks.tla, under every size limit
+    if stage_sizes:
+        for ms in stage_sizes:
+            out = os.path.join(vlib.subdir("traces"), f"cache-stages-ms{ms}.ndjson")
+            rc, so, se = vlib.run_vh(["cachemgr", "-stages", 3 if tier == "quick" else 25, "-maxsize", ms, "-out", out,
+                                      "-dir", vlib.subdir(f"cm-stages{ms}")], timeout=900)
+            if rc != 0:
+                raise Inconclusive(f"cachemgr stage scenarios failed rc={rc}: {se[-1500:]}")
+            with open(out) as f:
+                for line in f:
+                    if '"ev":"Stuck"' in line and json.loads(line).get("confirmed") != 1:
+                        raise Inconclusive("a stage scenario did not return but the goroutine dump does not show it parked on a lock: " + line[:300])
+            tv = vlib.tlc_trace("CacheMonitor", out, known=kn.keys(), name=f"cache-stages-ms{ms}")
+            res.add("traces_validated_against_impl", 1)
+            res.add("stage_scenarios", json.loads(so.strip().splitlines()[-1])["behaviours"])
+            if not tv["accepted"]:
+                n = tv["matched"] + 1
+                line = vlib.read_line(out, n) or ""
+                dumps = sorted(glob.glob(os.path.join(vlib.subdir(f"cm-stages{ms}"), "stuck-stage-*.dump")))[:1]
+                res.violation(f"cache manager, transaction on several goroutines (maxsize {ms}): no monitor action explains line {n}: {line.strip()[:300]}",
+                              files=[out] + dumps, meta={"stages": True, "maxsize": ms, "line": n})
     tot_drift = 0
     for name, ms, behs in jobs:
         bf = os.path.join(vlib.subdir("traces"), f"cache-{name}.behaviours")
